@@ -96,7 +96,26 @@ template <class X> void run(Ctx& c, uint64_t idx) {
     if (idx % 2000 == 1) c.sample("uri", esc(s));
 }
 
-static void run_case(Ctx& c, uint64_t idx) { run<ApiA>(c, idx); run<ApiW>(c, idx); }
+// A structure filled in by hand whose text is exactly INT_MAX (and INT_MAX - 1) characters long: 128 path segments that all view one
+// block of 2^24 - 1 characters (measuring only -- nothing of that size is ever written). The largest length an int can report is
+// still reported exactly.
+template <class X> void longest(Ctx& c, int shorter) {
+    typedef typename X::Char Char; typedef typename X::Uri Uri; typedef typename X::Seg Seg;
+    const size_t L = ((size_t)1 << 24) - 1; static Char* block = nullptr;
+    if (!block) { block = (Char*)malloc((L + 1) * sizeof(Char)); if (!block) { c.count("longest_skipped_no_memory"); return; } for (size_t i = 0; i < L; i++) block[i] = X::wid('a'); block[L] = 0; }
+    Uri u; memset(&u, 0, sizeof u); std::vector<Seg> segs(128);
+    for (size_t i = 0; i < 128; i++) { segs[i].text.first = block; segs[i].text.afterLast = block + L - ((int)i < shorter ? 1 : 0); segs[i].next = i + 1 < 128 ? &segs[i + 1] : nullptr; segs[i].reserved = nullptr; }
+    u.pathHead = &segs[0]; u.pathTail = &segs[127];
+    long long want = 128LL * (long long)L + 127 - shorter;
+    int need = -5; int rc; { LibScope ls; rc = X::ToStringCharsRequired(&u, &need); } c.evaluations++; c.count("longest_text_measured");
+    if (rc != URI_SUCCESS || (long long)need != want) c.violation("C05", fmt("tostring/%s/chars-required-inexact", X::tag()), fmt("hand-filled relative path of 128 segments, text length %lld (INT_MAX - %lld): rc=%d charsRequired=%d", want, (long long)INT_MAX - want, rc, need));
+    // writing it into a small buffer is refused cleanly
+    Char small[8]; small[0] = X::wid('x'); int wr = -3; { LibScope ls; rc = X::ToString(small, &u, 8, &wr); } c.evaluations++;
+    if (rc != URI_ERROR_TOSTRING_TOO_LONG || wr != 0 || small[0] != 0) c.violation("C05", fmt("tostring/%s/short-capacity-wrong-code", X::tag()), fmt("hand-filled text of %lld characters into 8: rc=%d charsWritten=%d", want, rc, wr));
+}
+static void run_case(Ctx& c, uint64_t idx) {
+    if (idx < 4) { c.note("tostring longest text"); if (idx & 1) longest<ApiW>(c, (int)(idx >> 1)); else longest<ApiA>(c, (int)(idx >> 1)); c.distinct(4242 + idx); return; }
+    run<ApiA>(c, idx); run<ApiW>(c, idx); }
 template <class X> void fuzz_x(Ctx& c, unsigned f, const Str& s) {
     UriBox<X> b; if (b.parse(s) != URI_SUCCESS || !b.faithful()) return;
     Str origin = "parsed";
